@@ -179,6 +179,10 @@ class Unit:
             f = VFunc(name, "callee", spec)
             f.qual = "%s.%s" % (getattr(v, "__module__", "?"), getattr(v, "__qualname__", name))
             return f
+        import dataclasses as _dc
+        if _dc.is_dataclass(v) and not isinstance(v, type) and all(is_const(getattr(v, f.name)) for f in _dc.fields(v)):
+            # a module-level record of constants (read from the live module on every run)
+            return VObj(type(v).__name__, {f.name: getattr(v, f.name) for f in _dc.fields(v)})
         import re as _re
         if isinstance(v, _re.Pattern):
             # a compiled pattern is an opaque constant (what it matches is not modelled; callees that take it are UFs)
@@ -413,26 +417,46 @@ class Unit:
         return out
 
     def sym_filter(self, ex, n, g, it: VList):
-        """[x for x in xs if c(x)]: a fresh list, no longer than xs, all of whose elements satisfy c
-        (weak but sound model: order/multiplicity are not tracked)."""
+        """[x for x in xs if c(x)] over a symbolic list: a fresh list `out` tied to `xs` by an index map idx (ghost, exposed to
+        specs as srcidx(out, k)) and its inverse on kept elements inv (keptat(out, j)):
+          for k < len(out):  0 <= idx(k) < len(xs), idx strictly increasing, out[k] == xs[idx(k)], c(out[k])
+          for j < len(xs):   c(xs[j])  ->  0 <= inv(j) < len(out) and idx(inv(j)) == j
+        which is the meaning of a filter (order and multiplicity kept, nothing kept that fails c, nothing dropped that passes)."""
         if not (isinstance(n.elt, ast.Name) and isinstance(g.target, ast.Name) and n.elt.id == g.target.id):
             raise GenError("filtered comprehension with a mapped element over a symbolic list")
         envs = ex.snapshot_envs()
         ek = it.elem if isinstance(it.elem, str) else "tuple[%s]" % ",".join(it.elem)
         out = ex.fresh("list[%s]" % ek, "filtered")
         ex.pc.append(z3.And(ex.z(out.length) >= 0, ex.z(out.length) <= ex.z(it.length)))
-        out_c = out.copy()
+        out_c, it_c = out.copy(), it.copy()
+        tag = "%d" % out.uid
+        idx = z3.Function("filter_idx!" + tag, Int, Int)
+        inv = z3.Function("filter_inv!" + tag, Int, Int)
 
-        def cond(c):
+        def cond_at(lst, c):
             def run():
-                ex.envs.append({g.target.id: ex.list_get(out_c, c)})
+                ex.envs.append({g.target.id: ex.list_get(lst, c)})
                 try:
                     ts = [ex.b(ex.truth(ex.eval(cn))) for cn in g.ifs]
-                    return FT(z3.And(*ts))
+                    return z3.And(*ts)
                 finally:
                     ex.envs.pop()
-            return ex.with_envs(list(envs), run)
-        ex.hyps.append(FAll("k", 0, out.length, cond, "filter"))
+            saved = ex.spec
+            try:
+                return ex.with_envs(list(envs), run)
+            finally:
+                ex.spec = saved
+
+        def elem_eq(k):
+            a, b = ex.list_get(out_c, k), ex.list_get(it_c, idx(k))
+            if isinstance(a, tuple):
+                return z3.And(*[ex.b(ex.truth(ex.eq(x, y))) for x, y in zip(a, b)])
+            return ex.b(ex.truth(ex.eq(a, b)))
+        ex.hyps.append(FAll("k", 0, out.length, lambda c: FT(z3.And(
+            cond_at(out_c, c), 0 <= idx(c), idx(c) < ex.z(it_c.length), z3.Implies(c > 0, idx(c - 1) < idx(c)), elem_eq(c))), "filter"))
+        ex.hyps.append(FAll("j", 0, it_c.length, lambda c: FT(z3.Implies(cond_at(it_c, c), z3.And(
+            0 <= inv(c), inv(c) < ex.z(out_c.length), idx(inv(c)) == c))), "filter-complete"))
+        out.filter_of = (it_c, idx, inv)
         return out
 
     def eval_default(self, ex, dnode):
